@@ -83,10 +83,12 @@ Section CdbLoop.
   Variable lookup : N -> N -> option bytes.
   (* the records of the map: exactly its subnets, under (network address, length) *)
   Hypothesis lookup_hit : forall s, In s S -> lookup (s_addr s) (s_len s) = Some (loc_bytes (s_loc s)).
-  Hypothesis lookup_miss : forall a l, (forall s, In s S -> ~ (s_addr s = a /\ s_len s = l)) -> lookup a l = None.
+  Hypothesis lookup_miss : forall x l, x < two128 ->
+    (forall s, In s S -> ~ (s_addr s = x /\ s_len s = l)) -> lookup x l = None.
 
   Variable isv4 : bool.
   Variable maxmask a : N.
+  Hypothesis a_lt : a < two128.
 
   Definition elig (t : subnet) : Prop :=
     s_len t <= maxmask /\ (isv4 = true -> 96 <= s_len t) /\ contains t a = true.
@@ -129,7 +131,8 @@ Section CdbLoop.
         { destruct (List.existsb (fun s => (s_addr s =? clean_mask a mk) && (s_len s =? mk)) S) eqn:Ex.
           - apply existsb_exists in Ex. destruct Ex as [s [Hs1 Hs2]].
             apply Bool.andb_true_iff in Hs2. destruct Hs2 as [E1 E2]. apply N.eqb_eq in E1, E2. eauto.
-          - rewrite lookup_miss in L; [discriminate|].
+          - rewrite lookup_miss in L; [discriminate| |].
+            { pose proof (clean_mask_le a mk). lia. }
             intros s Hs1 [E1 E2].
             assert (existsb (fun s => (s_addr s =? clean_mask a mk) && (s_len s =? mk)) S = true).
             { apply existsb_exists. exists s. split; auto. rewrite E1, E2, !N.eqb_refl. reflexivity. }
@@ -167,11 +170,11 @@ Lemma elig_eligible : forall S a plen t, wf_subnets S -> In t S -> plen <= 128 -
 Proof.
   intros S a plen t wfS Ht Hp.
   destruct (wf_subnetb_spec t (wf_in S t wfS Ht)) as [W1 [W2 [W3 W4]]].
-  unfold elig, eligible. rewrite !Bool.andb_true_iff, N.leb_le.
-  rewrite (sfam_masked t W3). unfold fam.
+  unfold elig, eligible. rewrite (sfam_masked t W3). unfold fam.
   destruct (N.le_gt_cases 96 plen) as [Hge|Hlt].
   - rewrite (is_v4_clean_ge a plen Hge Hp).
     assert (E96 : (96 <=? plen) = true) by (apply N.leb_le; auto). rewrite E96, Bool.andb_true_r.
+    rewrite !Bool.andb_true_iff, N.leb_le.
     split.
     + intros [H1 [H2 H3]]. rewrite (contains_masked_client t a plen H1 Hp). split; [split|]; auto.
       destruct (is_v4 a) eqn:Va.
@@ -185,6 +188,7 @@ Proof.
       apply (v4_addr_len t W3 Vt).
   - assert (E96 : (96 <=? plen) = false) by (apply N.leb_gt; auto). rewrite E96, Bool.andb_false_r.
     rewrite (masked_lt96_not_v4 (clean_mask a plen) plen Hlt (clean_mask_masked a plen)).
+    rewrite !Bool.andb_true_iff, N.leb_le.
     split.
     + intros [H1 [_ H3]]. rewrite (contains_masked_client t a plen H1 Hp). split; [split|]; auto.
       destruct (is_v4 (s_addr t)) eqn:Vt; auto.
@@ -212,3 +216,189 @@ Proof.
     intros t Ht. destruct (eligible _ _ plen t) eqn:E; auto.
     apply (elig_eligible S a plen t wfS Ht Hp) in E. exfalso. exact (Hnone t Ht E).
 Qed.
+
+(* ---------------------------------------------------------------- bytes, keys *)
+
+Lemma bytes_eqb_eq : forall a b, bytes_eqb a b = true <-> a = b.
+Proof.
+  induction a as [|x a IH]; destruct b as [|y b]; simpl; split; intro H; try discriminate; auto.
+  - apply Bool.andb_true_iff in H. destruct H as [H1 H2]. apply N.eqb_eq in H1. apply IH in H2. congruence.
+  - inversion H; subst. rewrite N.eqb_refl. simpl. apply IH. reflexivity.
+Qed.
+
+Lemma bytes_eqb_refl : forall a, bytes_eqb a a = true.
+Proof. intro a. apply bytes_eqb_eq. reflexivity. Qed.
+
+Lemma bytes_eqb_neq : forall a b, a <> b -> bytes_eqb a b = false.
+Proof. intros a b H. destruct (bytes_eqb a b) eqn:E; auto. apply bytes_eqb_eq in E. contradiction. Qed.
+
+Lemma id_eqb_eq : forall x y : N * N, id_eqb x y = true <-> x = y.
+Proof.
+  intros [a b] [c d]. unfold id_eqb. simpl. rewrite Bool.andb_true_iff, !N.eqb_eq. split.
+  - intros [-> ->]. reflexivity.
+  - intro H. inversion H. auto.
+Qed.
+
+Lemma get_app : forall l1 l2 k,
+  get (l1 ++ l2) k = match get l1 k with Some v => Some v | None => get l2 k end.
+Proof.
+  induction l1 as [|[k' v] l1 IH]; simpl; intros l2 k; auto.
+  destruct (bytes_eqb k' k); auto.
+Qed.
+
+Lemma get_none : forall l k, (forall k' v, In (k', v) l -> k' <> k) -> get l k = None.
+Proof.
+  induction l as [|[k' v] l IH]; simpl; intros k H; auto.
+  rewrite bytes_eqb_neq; [|apply (H k' v); auto]. apply IH. intros k'' v' Hin. apply (H k'' v'). auto.
+Qed.
+
+(* big-endian encoding is injective below 256^n *)
+Fixpoint be_val (l : bytes) (acc : N) : N :=
+  match l with [] => acc | b :: r => be_val r (acc * 256 + b) end.
+
+Lemma be_val_snoc : forall l b acc, be_val (l ++ [b]) acc = be_val l acc * 256 + b.
+Proof. induction l as [|x l IH]; simpl; intros; auto. Qed.
+
+Lemma be_val_be_bytes : forall n a acc, be_val (be_bytes n a) acc = acc * 256 ^ N.of_nat n + a mod 256 ^ N.of_nat n.
+Proof.
+  induction n as [|n IH]; intros a acc.
+  - simpl. rewrite N.mod_1_r. lia.
+  - cbn [be_bytes]. rewrite be_val_snoc, IH.
+    rewrite Nnat.Nat2N.inj_succ, N.pow_succ_r'.
+    set (P := 256 ^ N.of_nat n).
+    assert (HP : P <> 0) by (apply N.pow_nonzero; discriminate).
+    rewrite (N.mod_mul_r a 256 P); [|discriminate|exact HP]. lia.
+Qed.
+
+Lemma ip16_inj : forall a b, a < two128 -> b < two128 -> ip16 a = ip16 b -> a = b.
+Proof.
+  intros a b Ha Hb H. unfold ip16 in H.
+  apply (f_equal (fun l => be_val l 0)) in H. rewrite !be_val_be_bytes in H.
+  change (256 ^ N.of_nat 16) with two128 in H.
+  rewrite !N.mod_small in H by assumption. lia.
+Qed.
+
+Lemma net_key_inj : forall m a l m' a' l', a < two128 -> a' < two128 ->
+  net_key m a l = net_key m' a' l' -> m = m' /\ a = a' /\ l = l'.
+Proof.
+  intros [m1 m2] a l [m1' m2'] a' l' Ha Ha' H. unfold net_key, mapid_bytes in H. cbn [fst snd app] in H.
+  remember (ip16 a) as X eqn:EX. remember (ip16 a') as Y eqn:EY.
+  injection H as E1 E2 E3. apply app_inj_tail in E3. destruct E3 as [E3 E4].
+  subst X Y. apply ip16_inj in E3; auto. subst. auto.
+Qed.
+
+(* ---------------------------------------------------------------- the CDB database of a data file *)
+
+Definition wf_kinds (f : dfile) : bool :=
+  forallb (fun m => (ml_kind m =? 77) || (ml_kind m =? 56)) (f_maps f).
+Definition wf_addrs (f : dfile) : bool :=
+  forallb (fun n => s_addr (nl_net n) <? two128) (f_nets f).
+
+Definition nk (n : netline) : kv :=
+  (net_key (nl_map n) (s_addr (nl_net n)) (s_len (nl_net n)), loc_bytes (s_loc (nl_net n))).
+
+Lemma map_kvs_v1 : forall ms, exists kvs, map_kvs false false ms = Some kvs /\
+  forall k v, In (k, v) kvs -> exists m, In m ms /\ k = [0; ml_kind m] ++ ml_name m ++ [suffix_of (ml_wild m)] /\ v = mapid_bytes (ml_id m).
+Proof.
+  induction ms as [|m ms [kvs [E H]]].
+  - exists []. split; auto. intros k v [].
+  - simpl. rewrite E. eexists. split; [reflexivity|].
+    intros k v [Hin|Hin].
+    + inversion Hin; subst. exists m. auto.
+    + destruct (H k v Hin) as [m' [Hm' R]]. exists m'. auto.
+Qed.
+
+Section CdbDb.
+  Variable f : dfile.
+  Variable m : mapid.
+  Hypothesis Hkinds : wf_kinds f = true.
+  Hypothesis Haddrs : wf_addrs f = true.
+  Hypothesis wfS : wf_subnets (nets_of f m).
+  Variable db : list kv.
+  Hypothesis Hdb : cdb_db f = Some db.
+
+  Let S := nets_of f m.
+
+  Lemma nets_of_in : forall s, In s S <-> exists n, In n (f_nets f) /\ nl_map n = m /\ nl_net n = s.
+  Proof.
+    intro s. unfold S, nets_of. rewrite in_map_iff. split.
+    - intros [n [E Hn]]. apply filter_In in Hn. destruct Hn as [Hn Hm]. apply id_eqb_eq in Hm. eauto.
+    - intros [n [Hn [Hm E]]]. exists n. split; auto. apply filter_In. split; auto. apply id_eqb_eq. auto.
+  Qed.
+
+  Lemma addr_lt : forall n, In n (f_nets f) -> s_addr (nl_net n) < two128.
+  Proof.
+    intros n Hn. unfold wf_addrs in Haddrs. rewrite forallb_forall in Haddrs.
+    apply N.ltb_lt. auto.
+  Qed.
+
+  Lemma db_shape : exists ms,
+    (forall k v, In (k, v) ms -> exists ml, In ml (f_maps f) /\ k = [0; ml_kind ml] ++ ml_name ml ++ [suffix_of (ml_wild ml)]) /\
+    db = map nk (f_nets f) ++ ms ++
+         [([0; 47], prefix_set (fun _ => true) f);
+          ([0; 52], prefix_set (fun s => is_v4 (s_addr s)) f);
+          ([0; 54], prefix_set (fun s => negb (is_v4 (s_addr s))) f);
+          (features_key, [1; 0; 0; 0])].
+  Proof.
+    unfold cdb_db in Hdb. destruct (map_kvs_v1 (f_maps f)) as [kvs [E H]]. rewrite E in Hdb.
+    inversion Hdb. exists kvs. split; auto.
+    intros k v Hin. destruct (H k v Hin) as [ml [G1 [G2 _]]]. eauto.
+  Qed.
+
+  Lemma kind_of : forall ml, In ml (f_maps f) -> ml_kind ml = 77 \/ ml_kind ml = 56.
+  Proof.
+    intros ml H. unfold wf_kinds in Hkinds. rewrite forallb_forall in Hkinds. specialize (Hkinds ml H).
+    apply Bool.orb_true_iff in Hkinds. rewrite !N.eqb_eq in Hkinds. auto.
+  Qed.
+
+  (* the prefix-length sets are found under their keys *)
+  Lemma get_prefix_set : forall k, k = 47 \/ k = 52 \/ k = 54 ->
+    get db [0; k] = Some (if k =? 47 then prefix_set (fun _ => true) f
+                          else if k =? 52 then prefix_set (fun s => is_v4 (s_addr s)) f
+                          else prefix_set (fun s => negb (is_v4 (s_addr s))) f).
+  Proof.
+    intros k Hk. destruct db_shape as [ms [Hms ->]].
+    rewrite get_app, get_none.
+    2:{ intros k' v Hin. apply in_map_iff in Hin. destruct Hin as [n [E _]]. unfold nk in E. inversion E.
+        unfold net_key. simpl. intro C. inversion C. }
+    rewrite get_app, get_none.
+    2:{ intros k' v Hin. destruct (Hms k' v Hin) as [ml [Hml ->]]. simpl. intro C. inversion C as [[E1 E2]].
+        destruct (ml_name ml); discriminate E2. }
+    destruct Hk as [ -> | [ -> | -> ] ]; reflexivity.
+  Qed.
+
+  (* the % records of the map *)
+  Lemma get_net_hit : forall s, In s S -> get db (net_key m (s_addr s) (s_len s)) = Some (loc_bytes (s_loc s)).
+  Proof.
+    intros s Hs. destruct db_shape as [ms [Hms ->]]. rewrite get_app.
+    assert (G : forall nets, (forall n, In n nets -> In n (f_nets f)) ->
+                (exists n, In n nets /\ nl_map n = m /\ nl_net n = s) ->
+                get (map nk nets) (net_key m (s_addr s) (s_len s)) = Some (loc_bytes (s_loc s))).
+    { induction nets as [|n nets IH]; intros Hsub [n0 [Hn0 [Em Es]]]; [contradiction|].
+      simpl. unfold nk at 1. destruct (bytes_eqb _ _) eqn:E.
+      - apply bytes_eqb_eq in E. apply net_key_inj in E.
+        + destruct E as [E1 [E2 E3]].
+          assert (In (nl_net n) S) by (apply nets_of_in; exists n; auto using in_eq).
+          assert (nl_net n = s) by (apply (wf_same_block S); auto). congruence.
+        + apply addr_lt. apply Hsub. left; auto.
+        + apply nets_of_in in Hs. destruct Hs as [n1 [Hn1 [_ <-]]]. apply addr_lt; auto.
+      - apply IH; [intros; apply Hsub; right; auto|].
+        destruct Hn0 as [->|Hn0]; [|eauto].
+        subst. rewrite bytes_eqb_refl in E. discriminate. }
+    rewrite G; auto. apply nets_of_in in Hs. destruct Hs as [n [H1 [H2 H3]]]. eauto.
+  Qed.
+
+  Lemma get_net_miss : forall x l, x < two128 ->
+    (forall s, In s S -> ~ (s_addr s = x /\ s_len s = l)) -> get db (net_key m x l) = None.
+  Proof.
+    intros x l Hx Hno. destruct db_shape as [ms [Hms ->]].
+    rewrite get_app, get_none.
+    2:{ intros k' v Hin. apply in_map_iff in Hin. destruct Hin as [n [E Hn]]. unfold nk in E. inversion E.
+        intro C. apply net_key_inj in C; auto; [|apply addr_lt; auto].
+        destruct C as [C1 [C2 C3]]. apply (Hno (nl_net n)); auto. apply nets_of_in. eauto. }
+    rewrite get_app, get_none.
+    2:{ intros k' v Hin. destruct (Hms k' v Hin) as [ml [Hml ->]]. unfold net_key. simpl. intro C. inversion C as [[E1 E2]].
+        destruct (kind_of ml Hml); congruence. }
+    simpl. reflexivity.
+  Qed.
+End CdbDb.
